@@ -1,4 +1,5 @@
 CONSTANTS
+  defaultInitValue = "connecting"
   Impl = "asis"
   Start = "connecting"
   WithP = TRUE
